@@ -197,6 +197,28 @@ def main(tier_):
         c = by_id.get(b["case"], {})
         sig = dict(check="fault-containment", what=b["what"], nr=b["nr"], scenario=c.get("meta", {}).get("scenario"))
         v.violation(sig, "C10 (containment under faults): %s in %s" % (b["what"], b["case"]), c)
+    # the bounded EAGAIN retry as a behaviour of Lookup.tla (K_Openat2, KRetry = 16): recorded openat2 sequences of
+    # lookups under n injected EAGAINs must be accepted by TraceLookup -- n < 16 ends with the kernel's answer,
+    # n >= 16 with a safety violation after exactly 16 attempts
+    from checks import race
+    ecases = []
+    for call in (dict(op="resolve", path="a/b/c"), dict(op="resolve", path="la/../nx", nofollow=True), dict(op="open", path="la/c", oflags=O["RDONLY"] | O["DIRECTORY"]),
+                 dict(op="open", path="f", oflags=O["PATH"]), dict(op="readlink", path="la")):
+        for n in (1, 2, 15, 16, 17, 40):
+            ecases.append(dict(id="eagain-conf|%s|%s|%d" % (call["op"], call["path"], n), tree=race.RACE_TREES["links"], feat={"openat2": True}, trace=True, raw=False,
+                               calls=[call], faults=[dict(call=0, nr="openat2", errno=11, count=n)]))
+    eres = run_pv(ecases, jobs=8, tag="C10e")
+    econf = lookup_conformance(ecases, eres)
+    for d in econf["drift"][:5]:
+        v.notes.append("MODEL-DRIFT Lookup.tla K_Openat2: %s first unmatched %s" % (d["case"], json.dumps(d["first_unmatched"])[:200]))
+    for c, r in zip(ecases, eres):
+        n = c["faults"][0]["count"]
+        o = lib_outcome(((r.get("out") or [{}])[0].get("results") or [{}])[0])
+        natt = sum(1 for e in r.get("events", []) if e.get("ev") == "sys" and e.get("nr") == "openat2" and e.get("dfd_class") == "tree")
+        if (n >= 16) != (o == ("err", "SAFETY")) or natt != min(n + 1, 16):
+            v.violation(dict(check="eagain-bound", op=c["calls"][0]["op"], n=n, outcome=list(o), attempts=natt),
+                        "C10: %s under %d consecutive EAGAINs of openat2 made %d attempts and returned %s; expected %s after %d attempts" % (
+                            c["calls"][0], n, natt, o, "a safety violation" if n >= 16 else "the kernel's answer", min(n + 1, 16)), c)
     wall = time.time() - t0
     rc = v.finish()
     samples = [dict(case=r["case"], op=r["op"], site=r["site"], errno=r["errno"], fired=r["fired"], outcome=r["outcome"], errkind=r["errkind"][:80]) for r in recs[:3] + recs[-3:]]
@@ -206,6 +228,7 @@ def main(tier_):
                rule="a case = (scenario call, feature set, cold/warm, fault: single (index i of the real injectable-syscall sequence, errno) | n x EAGAIN on openat2 | EMFILE on every fd-creating call from index i); "
                     "non-trivial = the fault actually fired; distinct = distinct (operation, fault kind, syscall, errno, outcome class)",
                exhaustive=not quick, single_fault_space=space, fired=stats["fired"], not_fired=stats["not_fired"],
-               outcomes={k: n for k, n in stats.items() if k.startswith("outcome_")}, kernel_model_mismatches=len(kmm), build_s=round(build_s, 1))
+               outcomes={k: n for k, n in stats.items() if k.startswith("outcome_")}, kernel_model_mismatches=len(kmm),
+               eagain_model_conformance=dict(validated=econf["validated"], accepted=econf["accepted"], drift=econf["drift"][:5]), build_s=round(build_s, 1))
     write_evidence("C10", tier_, "model_checking", cov, ASSUME, wall, len(v.violations))
     return rc
